@@ -34,7 +34,7 @@ func init() {
 		Run: func(w *mon.Worker) { runRefcount(w, "C09") }, Workers: 16, GOMAXPROCS: 4,
 		QuickTimeout: 8 * time.Minute, ThoroughTimeout: 40 * time.Minute,
 		QuickFloor: 1500, ThoroughFloor: 40000, CaseTimeout: 8 * time.Second,
-		RequiredCounters: []string{"resolver_entries_checked", "quiescent_delivery_judgements", "restarts_inside_resolver_return", "addref_nil_callback_calls", "references_added_after_resolution", "gated_templates", "root_cancel_templates", "RefCountResolveStart"},
+		RequiredCounters: []string{"resolver_entries_checked", "quiescent_delivery_judgements", "restarts_inside_resolver_return", "addref_nil_callback_calls", "references_added_after_resolution", "gated_templates", "root_cancel_templates", "stale_resolver_context_judgements", "zero_value_cases", "RefCountResolveStart"},
 		Rule: "same workload as C08 plus bursts of 2-5 restarts (SetContext / released()) while a resolver ignores cancellation, and a gated template holding resolver A in its return path; a resolver active counter is asserted at every entry; at quiescence with a live context and held references the newest resolver call's result must be in the target containers and be the last thing every held reference callback received; " +
 			"every API call must return (panics are caught, calls blocked at quiescence are violations), AddRef(nil) is issued in every state; non-trivial = at least two restarts inside one resolver's return latency, or a reference added after resolution; distinct = distinct event orders",
 		Assumptions: rfAssume,
@@ -43,7 +43,7 @@ func init() {
 		Run: func(w *mon.Worker) { runRefcount(w, "C10") }, Workers: 16, GOMAXPROCS: 4,
 		QuickTimeout: 8 * time.Minute, ThoroughTimeout: 40 * time.Minute,
 		QuickFloor: 1500, ThoroughFloor: 40000, CaseTimeout: 8 * time.Second,
-		RequiredCounters: []string{"consumer_returns_judged", "access_invocations", "access_returns_judged", "invalidations_inside_consumer_call", "released_callbacks_audited", "equal_replacement_cases", "access_single_invalidation_cases"},
+		RequiredCounters: []string{"consumer_returns_judged", "access_invocations", "access_returns_judged", "invalidations_inside_consumer_call", "released_callbacks_audited", "equal_replacement_cases", "access_single_invalidation_cases", "zero_value_cases"},
 		Rule: "same workload with 1-3 Access callers (callbacks returning at once, running until cancelled or until told) and 1-3 Wait/Resolve/ResolveWithReleased callers as the main actors, an invalidator, a context changer and other references coming and going, including resolvers that return an equal (==) value again; " +
 			"consumer holds are entered into the premature-release table between return and release; Access results are judged against the release stamps that fall inside the callback invocation; at quiescence blocked invocations on invalidated values and missing re-invocations are violations; " +
 			"non-trivial = at least one invalidation landed inside a consumer's call; distinct = distinct event orders",
